@@ -51,7 +51,11 @@ def gen_resource(rng):
     a['synsets'][0]['lexfile'] = 'brand.new.lexfile'
     b = g.lexicon('b', '1', v, n_syn=2, n_ent=2)
     ext = g.extension('px', pre, '1', v)
-    return {'pre': docs.resource([pre], v), 'main': docs.resource([a, b], v), 'ext': docs.resource([ext], v), 'v': v}
+    main = [a, b]
+    if rng.random() < 0.5:
+        # an extension shipped in the same resource as its base (skipped by the pre-check) between two lexicons
+        main = [a, g.extension('ax', a, '1', v), b]
+    return {'pre': docs.resource([pre], v), 'main': docs.resource(main, v), 'ext': docs.resource([ext], v), 'v': v}
 
 
 def corruptions(res, rng, limit):
@@ -60,6 +64,8 @@ def corruptions(res, rng, limit):
     lx_n = len(res['lexicons'])
     for li in range(lx_n):
         lx = res['lexicons'][li]
+        if lx.get('extends'):
+            continue        # shipped with its base: skipped by the pre-check, its content is never read
         for ei, e in enumerate(lx.get('entries', [])):
             for si, s in enumerate(e.get('senses', [])):
                 out.append(('sense->synset', [li, ei, si]))
@@ -275,14 +281,15 @@ def _impl(args):
             class BombR(ProgressHandler):
                 n = 0
 
+                # fails at callback k and at every later one (a handler whose resources are gone)
                 def update(self, n=1, force=False):
                     BombR.n += 1
-                    if BombR.n == k:
+                    if BombR.n >= k:
                         raise EXC_TYPES[k % 4](f'remove callback {k}')
 
                 def flash(self, message):
                     BombR.n += 1
-                    if BombR.n == k:
+                    if BombR.n >= k:
                         raise EXC_TYPES[k % 4](f'remove callback {k}')
             raised = False
             try:
@@ -291,10 +298,18 @@ def _impl(args):
                 raised = True
             except Exception as e:
                 raised = 'other:' + type(e).__name__
+            # the connection must be left without callbacks of the interrupted call: a long-running statement works
+            probe = 'ok'
+            try:
+                wn._db.connect().execute('WITH RECURSIVE c(x) AS (SELECT 1 UNION ALL SELECT x + 1 FROM c WHERE x < 400000) SELECT count(*) FROM c').fetchone()
+            except BaseException as e:      # noqa: BLE001
+                probe = 'error:' + type(e).__name__
             after = dump(wn._db.connect())
-            rec = {'kind': 'remove-callback', 'pos': k, 'raised': raised, 'K': KR,
+            rec = {'kind': 'remove-callback', 'pos': k, 'raised': raised, 'K': KR, 'probe': probe,
                    'changed_tables': {t: [len(pre2[t]), len(after[t])] for t in TABLES if pre2[t] != after[t]}}
-            if raised:
+            if probe != 'ok':
+                rec['followup'] = 'connection-unusable-after-interrupted-remove:' + probe
+            elif raised:
                 rec['followup'] = 'ok' if store.canon_obs(store.obs_all(wn)) == obs2 else 'different-observation'
             else:
                 rec['followup'] = 'ok'
